@@ -11,7 +11,8 @@ from .pyast import Unrecognised, clean, cstr, is_logger_call, unparse
 class Ctx:
     def __init__(self, attr_vars=(), enum_prefixes=(), identity_calls=(), attr_targets=(), prims=None,
                  objects=False, consts=None, tables=(), procs=None, record_classes=(), str_consts=None, skip_stmts=(),
-                 refs=None, ref_procs=None, record_ctors=None, message_vars=(), unmodelled=None, while_fuel=None):
+                 refs=None, ref_procs=None, record_ctors=None, message_vars=(), unmodelled=None, while_fuel=None,
+                 kw_ctors=None, setters=None):
         self.attr_vars = set(attr_vars) | set(attr_targets)  # source texts treated as variables, e.g. "self.prefix"
         self.attr_targets = set(attr_targets)    # attributes the method may assign / append to, e.g. "self.negative_option_strings"
         self.enum_prefixes = tuple(enum_prefixes)  # "DashVariant." ... : enum members become string constants
@@ -33,6 +34,10 @@ class Ctx:
         self.message_vars = set(message_vars)     # names that only carry exception / log messages: not modelled
         self.unmodelled = dict(unmodelled or {})  # callee source -> error class: a statement calling it is `raise <that>` in the dump
         self.while_fuel = while_fuel              # bound of every while loop (the caller reads it from the source)
+        # ---- seventh group: uninterpreted constructors called with keywords, one-assignment setter methods
+        self.kw_ctors = dict(kw_ctors or {})      # callee source -> (class name, parameter names in signature order): the call builds a new
+                                                  # object that keeps exactly the arguments written at the call (positional ones named)
+        self.setters = dict(setters or {})        # method name -> attribute: `x.m(v)` is `x.attr = v` (the caller pins the method's body)
         self.defaultdicts = set()
         self.setvars = set()
         self.views = {}                          # X -> Y after `X = vars(Y)`: X is the live dict view of the object Y (ONE variable)
@@ -281,6 +286,14 @@ def expr4(n, c: Ctx, subst, src):
         if fsrc == "argparse.Namespace" and not a and len(n.keywords) == 1 and n.keywords[0].arg is None \
                 and isinstance(n.keywords[0].value, ast.Name) and n.keywords[0].value.id in c.views:
             return f"(EVar {cstr(c.views[n.keywords[0].value.id])})"      # a new Namespace with the same attributes
+        if fsrc in c.kw_ctors and all(k.arg is not None for k in n.keywords) and not any(isinstance(x, ast.Starred) for x in a):
+            cls_, params = c.kw_ctors[fsrc]
+            given = dict(zip(params, a))
+            if len(a) <= len(params) and all(k.arg in params and k.arg not in given for k in n.keywords) \
+                    and len({k.arg for k in n.keywords}) == len(n.keywords):
+                given.update({k.arg: k.value for k in n.keywords})
+                fs_ = "; ".join(f"({cstr(p_)}, {expr(given[p_], c, subst)})" for p_ in params if p_ in given)
+                return f"(ERec {cstr(cls_)} [{fs_}])"
         if n.keywords:
             return None
         if fsrc == "cast" and len(a) == 2:
@@ -298,6 +311,8 @@ def expr4(n, c: Ctx, subst, src):
             ok = ("list", "tuple", "str", "dict") + tuple(c.record_classes)
             if cls and all(isinstance(k, ast.Name) and k.id in ok for k in cls):
                 return f"(EIsInst {expr(a[0], c, subst)} [{'; '.join(cstr(k.id) for k in cls)}])"
+            if cls and all(unparse(k) in c.record_classes for k in cls):
+                return f"(EIsInst {expr(a[0], c, subst)} [{'; '.join(cstr(unparse(k)) for k in cls)}])"
         if isinstance(n.func, ast.Attribute):
             m, obj = n.func.attr, n.func.value
             if m == "get" and len(a) == 2:
@@ -375,6 +390,9 @@ def stmt4(s, c: Ctx, subst):
         return []                                            # a bare annotation `x: T` binds nothing
     if isinstance(s, ast.Continue):
         return ["SContinue"]
+    if isinstance(s, ast.Expr) and isinstance(s.value, ast.Call) and isinstance(s.value.func, ast.Attribute) and s.value.func.attr in c.setters \
+            and isinstance(s.value.func.value, ast.Name) and s.value.func.value.id not in subst and len(s.value.args) == 1 and not s.value.keywords:
+        return [f"SSetPath {cstr(s.value.func.value.id)} [(true, (EStr {cstr(c.setters[s.value.func.attr])}))] {expr(s.value.args[0], c, subst)}"]
     if isinstance(s, ast.Break):
         return ["SBreak"]
     if isinstance(s, ast.For) and isinstance(s.target, ast.Name) and (s.orelse or _has_own(s.body, ast.Break)):
@@ -829,7 +847,7 @@ def alias_check(body, c: Ctx, extra=()) -> None:
             if direct in mutated:
                 if direct in views and v is not None and isinstance(v, ast.Call) and unparse(v.func) == "vars":
                     continue
-                if v is None or not _fresh_list(v):
+                if v is None or not (_fresh_list(v) or (isinstance(v, ast.Call) and unparse(v.func) in c.kw_ctors)):
                     bad(direct, "is bound to a value that may be shared with another name")
                 if isinstance(v, ast.Call) and isinstance(v.func, ast.Attribute) and v.func.attr == "copy" and depth_of.get(direct, 0) >= 2:
                     # a shallow copy shares the inner objects: the original must be dead from here on
@@ -929,22 +947,33 @@ def alias_check(body, c: Ctx, extra=()) -> None:
     # binding again) is not shared while it changes
     def frozen_after_mutation(nm):
         blocks = [b for n in ast.walk(root) for b in (getattr(n, "body", None), getattr(n, "orelse", None)) if isinstance(b, list)]
+        cands = []
         for b in blocks:
             idx = [i for i, st in enumerate(b) if isinstance(st, (ast.Assign, ast.AnnAssign)) and getattr(st, "value", None) is not None
                    and any(_vname(t, c) == nm for t in (st.targets if isinstance(st, ast.Assign) else [st.target]))]
-            if len(idx) != 1:
-                continue
-            bi = idx[0]
-            inside = {id(m) for st in b for m in ast.walk(st)}
-            if any(isinstance(m, (ast.Name, ast.Attribute)) and _vname(m, c) == nm and id(m) not in inside for m in ast.walk(root)):
-                return False                # used outside this block
+            if len(idx) == 1:
+                cands.append((b, idx[0]))
+        if not cands:
+            return False
+        if len(cands) > 1:
+            # several blocks (the arms of an if/elif chain), each with its own binding: every use must follow the binding of its block
+            for b, bi in cands:
+                if any(isinstance(m, (ast.Name, ast.Attribute)) and _vname(m, c) == nm for st in b[:bi] for m in ast.walk(st)):
+                    return False
+        else:
+            cands = cands[:1]
+        inside = {id(m) for b, _ in cands for st in b for m in ast.walk(st)}
+        if any(isinstance(m, (ast.Name, ast.Attribute)) and _vname(m, c) == nm and id(m) not in inside for m in ast.walk(root)):
+            return False                # used outside these blocks
+        for b, bi in cands:
             muts = [i for i, st in enumerate(b) if nm in mutated_names([st], c, views)]
             keeps = [i for i, st in enumerate(b) if i != bi and any(
                 isinstance(m, (ast.Name, ast.Attribute)) and isinstance(getattr(m, "ctx", None), ast.Load) and _vname(m, c) == nm
                 and not (isinstance(parent.get(m), ast.Attribute) and _vname(parent[m], c) in mutated) and not consumed(m, nm)
                 for m in ast.walk(st))]
-            return all(bi < i for i in muts) and (not keeps or not muts or max(muts) < min(keeps))
-        return False
+            if not (all(bi < i for i in muts) and (not keeps or not muts or max(muts) < min(keeps))):
+                return False
+        return True
 
     for n in ast.walk(root):
         if isinstance(n, (ast.Name, ast.Attribute)) and isinstance(getattr(n, "ctx", None), ast.Load):
